@@ -68,6 +68,9 @@ fam({'C09': ('keys', 'all'), 'C10': ('main', 'all')},
     mc_quick=[('ExclusiveL2', 'ExclusiveL2'), ('ExclusiveL2', 'ExclusiveL2_neg'), ('ExclusiveL2', 'ExclusiveL2_witness')],
     mc_thorough=[('ExclusiveL2', 'ExclusiveL2_big'), ('ExclusiveL2', 'ExclusiveL2_neg'), ('ExclusiveL2', 'ExclusiveL2_witness')],
     n=(80, 300, 2000, 6000))
+# real contention: a few hundred back-to-back calls per execution (free-running, no perturbation)
+for _pid in ('C09', 'C10'):
+    F[_pid] = dict(F[_pid], legs=[dict(driver='exclusive', profile='stress', prop='all', tv='ExclusiveTV', n=(0, 20, 0, 200), mc_quick=[], mc_thorough=[])])
 fam({'C06': ('main', 'all'), 'C07': ('main', 'all')},
     driver='pubsub', tv='PubSubTV',
     mc_quick=[('PubSubL2', 'PubSubL2')], mc_thorough=[('PubSubL2', 'PubSubL2'), ('PubSubL2', 'PubSubL2_2s'), ('PubSubL2', 'PubSubL2_3u')],
